@@ -66,6 +66,9 @@ func init() {
 		add(map[string]interface{}{"in": []int{4, 1}, "k": []int{2, 3}, "pads": []int{2, 0, 0, 0}})
 		add(map[string]interface{}{"in": []int{1, 4}, "k": []int{3, 2}, "auto_pad": "SAME_UPPER"})
 		add(map[string]interface{}{"in": []int{1, 4}, "k": []int{3, 2}, "auto_pad": "SAME_LOWER"})
+		// batches of 5 and 6 samples
+		add(map[string]interface{}{"in": []int{2, 3}, "k": []int{2, 2}, "N": 5, "bias": true})
+		add(map[string]interface{}{"nd": 1, "in": []int{3}, "k": []int{2}, "N": 6, "M": 2, "bias": true})
 		// refused configurations
 		add(map[string]interface{}{"in": []int{3, 3}, "k": []int{2, 2}, "group": 2, "C": 2, "M": 2})
 		add(map[string]interface{}{"in": []int{3, 3}, "k": []int{2, 2}, "group": 1})
